@@ -105,7 +105,9 @@ package ctpolicy
 //@ arith int
 //@ loop-frames
 //@ site weightedRandomSample#1 as ws
+//@ site RLock#1 as rl
 //@ requires group != nil
+//@ loop 1 invariant [weights-are-copied-under-the-read-lock] rl.called
 //@ loop 1 invariant forall s string :: has(unProcessedWeights, s) ==> has(group.LogWeights, s)
 //@ loop 2 invariant forall s string :: has(unProcessedWeights, s) ==> has(group.LogWeights, s)
 //@ loop 2 invariant forall j int :: 0 <= j && j < len(session) ==> !has(unProcessedWeights, session[j]) && has(group.LogWeights, session[j])
@@ -113,3 +115,25 @@ package ctpolicy
 //@ at ws assert [sampled-from-the-logs-not-yet-in-the-session] ws.weights == unProcessedWeights
 //@ ensures [every-entry-is-a-weighted-log-of-the-group] forall j int :: 0 <= j && j < len(result) ==> has(group.LogWeights, result[j])
 //@ ensures [no-log-appears-twice] forall j int :: 0 <= j && j < len(result) ==> (forall k int :: 0 <= k && k < j ==> result[k] != result[j])
+
+// C17 "concurrent submissions, weight changes ... are free of data races": the weights of a group are
+// guarded by wMu. Lock discipline as contract: the weights are read only after the (read or write)
+// lock has been taken, and written only under the write lock. (What a contract can say about
+// concurrency here is exactly this ordering inside each function; the absence of races then follows
+// from the mutex, which is assumed atomic.)
+//@ func (*LogGroupInfo).SetLogWeight
+//@ props C17
+//@ arith int
+//@ site Lock#1 as lk
+//@ requires group != nil
+//@ loop 1 invariant [weights-are-copied-under-the-lock] lk.called
+//@ ensures [weights-change-only-under-the-write-lock] group.LogWeights != old(group.LogWeights) ==> lk.called
+
+//@ func (*LogGroupInfo).SetLogWeights
+//@ props C17
+//@ arith int
+//@ site Lock#1 as lk
+//@ requires group != nil
+//@ requires group.LogWeights != nil
+//@ loop 2 invariant [weights-are-reset-under-the-write-lock] lk.called && group.LogWeights != nil
+//@ loop 3 invariant [weights-are-written-under-the-write-lock] lk.called && group.LogWeights != nil
